@@ -32,10 +32,11 @@ def isBoolLit : Expr → Bool
 /-- the names in scope behind a statement -/
 def defsOf (B : List String) : Stmt → List String
   | .assign _ tok [.ident _ x] _ => if tok == tDefine then x :: B else B
+  | .declValue _ _ [(_, [(_, x)], _)] => x :: B
   | _ => B
 
 mutual
-/-- statements of the slice: `e;`, `x := e`, `x = e`, `x op= e` (uncaptured locals), blocks,
+/-- statements of the slice: `e;`, `x := e`, `var x = e`, `x = e`, `x op= e` (uncaptured locals), blocks,
     `if c { … }`, `if c { … } else { … }`, `else if`, `return`, `return e`, the empty statement -/
 def StmtF : List String → Stmt → Bool
   | _, .empty _ => true
@@ -45,6 +46,7 @@ def StmtF : List String → Stmt → Bool
       (if tok == tDefine then x != "_"
        else if tok == tAssign then B.contains x
        else (Compile.compoundOp tok).isSome && B.contains x)
+  | B, .declValue _ tok [(_, [(_, x)], [some e])] => ExprF (bnd B) e && tok == tVar && x != "_"
   | B, .block _ body => StmtsF B body
   | B, .if_ _ none c _ body none => ExprF (bnd B) c && !isBoolLit c && StmtsF B body
   | B, .if_ _ none c _ body (some e) => ExprF (bnd B) c && !isBoolLit c && StmtsF B body && ElseF B e
@@ -71,6 +73,7 @@ mutual
 def needS : Stmt → Nat
   | .expr _ e => need e
   | .assign _ _ _ [r] => need r + 1
+  | .declValue _ _ [(_, _, [some e])] => need e + 1
   | .block _ body => needL body
   | .if_ _ _ c _ body none => max (need c) (needL body)
   | .if_ _ _ c _ body (some e) => max (need c) (max (needL body) (needS e))
